@@ -78,6 +78,8 @@ pub enum Op {
     Start { node: usize },
     Drop { node: usize, crash: bool },
     Search { node: usize, ih: [u8; 20], announce: bool },
+    /// a search whose stream the caller does not simply read to the end
+    SearchX { node: usize, ih: [u8; 20], announce: bool, mode: Consume },
     Bootstrapped { node: usize },
     Sample { node: usize, table: bool },
     SampleEvery { node: usize, period_ms: Ms, count: u32, table: bool },
@@ -97,6 +99,17 @@ pub enum Op {
     Closest { node: usize, target: [u8; 20] },
     RecvErr { node: usize, count: u32 },
     Nop,
+}
+
+/// How the caller treats the `SearchStream` of a `SearchX` step.
+#[derive(Clone, Debug, Serialize, Deserialize, PartialEq, Eq)]
+pub enum Consume {
+    /// read items as they come, drop the stream `ms` after the call (fire-and-forget when 0)
+    DropAfterMs(Ms),
+    /// read until `n` items have been yielded, then drop the stream
+    DropAfterItems(u32),
+    /// do not poll the stream at all for `ms`, then read it to the end
+    PollAfterMs(Ms),
 }
 
 #[derive(Clone, Debug, Serialize, Deserialize, PartialEq, Eq)]
@@ -378,6 +391,57 @@ impl Shared {
                     drop(d);
                     while let Some(a) = s.next().await {
                         self.net.api(step, ApiEv::SearchItem { addr: a });
+                    }
+                }
+                self.net.api(step, ApiEv::SearchEnd);
+            }
+            Op::SearchX { node, ih: h, announce, mode } => {
+                self.net.api(
+                    step,
+                    ApiEv::SearchStart { node: *node, ih: *h, announce: *announce },
+                );
+                if let Some(d) = self.node(*node) {
+                    let mut s = d.search(ih(h), *announce);
+                    drop(d);
+                    match mode {
+                        Consume::PollAfterMs(ms) => {
+                            tokio::time::sleep(Duration::from_millis(*ms)).await;
+                            self.net.api(step, ApiEv::Note("poll_start".into()));
+                            while let Some(a) = s.next().await {
+                                self.net.api(step, ApiEv::SearchItem { addr: a });
+                            }
+                        }
+                        Consume::DropAfterMs(ms) => {
+                            let deadline = tokio::time::Instant::now() + Duration::from_millis(*ms);
+                            loop {
+                                match tokio::time::timeout_at(deadline, s.next()).await {
+                                    Ok(Some(a)) => self.net.api(step, ApiEv::SearchItem { addr: a }),
+                                    Ok(None) => break,
+                                    Err(_) => {
+                                        drop(s);
+                                        self.net.api(step, ApiEv::SearchDropped);
+                                        return;
+                                    }
+                                }
+                            }
+                        }
+                        Consume::DropAfterItems(n) => {
+                            let mut got = 0u32;
+                            loop {
+                                if got >= *n {
+                                    drop(s);
+                                    self.net.api(step, ApiEv::SearchDropped);
+                                    return;
+                                }
+                                match s.next().await {
+                                    Some(a) => {
+                                        got += 1;
+                                        self.net.api(step, ApiEv::SearchItem { addr: a });
+                                    }
+                                    None => break,
+                                }
+                            }
+                        }
                     }
                 }
                 self.net.api(step, ApiEv::SearchEnd);
